@@ -589,7 +589,8 @@ def eps_allow(squash, action) -> float:
     if not squash:
         return 0.0
     a = np.asarray(action, dtype=np.float64)
-    return float(np.sum(1e-6 / np.maximum(1.0 - a * a, 1.2e-7)) + 1e-6)
+    # ... plus the float32 rounding of a*a inside the code's `1 - a.pow(2)` (relative error 2^-23 of a number close to 1)
+    return float(np.sum((1e-6 + 2.4e-7) / np.maximum(1.0 - a * a, 1.2e-7)) + 1e-6)
 
 
 def saturated(row) -> bool:
@@ -768,6 +769,8 @@ def run_draws(case, n_draws: int):
     problems = []
     nvec = nvec_of(spec)
     for r in range(len(obs)):
+        if dead_row(spec, m[r].astype(int).tolist()):
+            continue
         if spec["kind"] == "multibinary":
             if np.any((a[r] == 1) & ~m[r]):
                 problems.append(f"draw {r}: masked bit sampled {a[r].tolist()} mask {m[r].astype(int).tolist()}")
@@ -1326,12 +1329,27 @@ def gen_cases(chk: Check):
         spec = {"kind": "box", "d": 2}
         cases.append({"suite": "ppo", "spec": spec, "rows": gen_rows(rng, spec, False, 2), "seed": rng.randrange(1 << 30),
                       "scale": 2.0, "std_init": 0.0, "squash": True, "history": [["amut", rng.randrange(1 << 20), kk]]})
+    # the std in use must be the CURRENT log_std after every kind of change, in evaluation mode too
+    for change in (["log_std", -0.5], ["load", 0.25], ["sd"], ["clone"]):
+        for squash in (False, True):
+            spec = {"kind": "box", "d": 3}
+            cases.append({"suite": "actor", "spec": spec, "rows": gen_rows(rng, spec, False, 2), "seed": rng.randrange(1 << 30),
+                          "scale": 2.0, "std_init": 0.0, "squash": squash, "mode": "eval", "history": [["eval_fwd"], change]})
+    for change in (["log_std", -0.5], ["load", 0.25], ["learn"]):
+        spec = {"kind": "box", "d": 3}
+        cases.append({"suite": "ppo", "spec": spec, "rows": gen_rows(rng, spec, False, 2), "seed": rng.randrange(1 << 30),
+                      "scale": 2.0, "std_init": 0.0, "squash": False, "lr": 0.02, "history": [["get_action"], change]})
+    for change in (["log_std", -0.5], ["learn"]):
+        cases.append({"suite": "ippo", "agent_ids": ["agent_0", "agent_1", "other_0"],
+                      "specs": [{"kind": "box", "d": 2}, {"kind": "box", "d": 2}, {"kind": "box", "d": 3}],
+                      "rows": [[i, None] for i in rng.sample(range(POOL), 2)], "seed": rng.randrange(1 << 30), "scale": 2.0,
+                      "std_init": 0.0, "lr": 0.02, "history": [["get_action"], change]})
     kinds4 = ("discrete", "multidiscrete", "multibinary", "box")
     for i in range(100 if quick else 400):                    # the actor directly
         spec = random_spec(rng, big=True, kinds=(kinds4[i % 4],)) if i < 8 else random_spec(rng)
         masked = spec["kind"] != "box" and rng.random() < 0.6
         cases.append({"suite": "actor", "spec": spec, "rows": gen_rows(rng, spec, masked), **common_fields(rng, spec),
-                      "history": actor_history(rng)})
+                      "history": actor_history(rng), "mode": rng.choice(["train", "eval", "eval"])})
     for i in range(60 if quick else 240):                     # PPO.get_action / evaluate_actions
         spec = random_spec(rng, big=True, kinds=(kinds4[i % 4],)) if i < 8 else random_spec(rng)
         masked = spec["kind"] != "box" and rng.random() < 0.4
@@ -1448,7 +1466,7 @@ def run(chk: Check) -> None:
         nontrivial = any(t in ("masked-row", "squash-row", "stored-reeval", "kind-multidiscrete", "kind-multibinary", "large-space")
                          or t.startswith("history-") for t in tags)
         chk.case(case_key(case), nontrivial=nontrivial,
-                 sample={k: case[k] for k in ("suite", "spec", "specs", "squash", "scale", "log_std", "std_init", "history", "algo") if k in case},
+                 sample={k: case[k] for k in ("suite", "spec", "specs", "squash", "scale", "log_std", "std_init", "history", "mode", "algo") if k in case},
                  tags=sorted(set(tags)))
         s = per_suite.setdefault(case["suite"], [0, 0])
         s[0] += 1
